@@ -7,13 +7,13 @@ Local Open Scope Z_scope.
 (** ---------------------------------------------------------------- on the model *)
 
 (** what the EVM admission pipeline must have done for a message, from state [s] to [s']:
-    the nonce equals the account sequence and is consumed, gas × price is deducted up front *)
+    the nonce equals the account sequence and is consumed, WeiToNative(gas limit × price) is deducted up front *)
 Inductive admit_seq : st -> list leaf -> st -> Prop :=
 | admit_nil s : admit_seq s [] s
 | admit_cons s a n g p v r s' :
     n = seq_of s a ->
-    g * p <= bal_of s a ->
-    admit_seq (set_seq (add_fee (add_bal s a (- (g * p))) (g * p)) a (S n)) r s' ->
+    (g * p) / WEI <= bal_of s a ->
+    admit_seq (set_seq (add_fee (add_bal s a (- ((g * p) / WEI))) ((g * p) / WEI)) a (S n)) r s' ->
     admit_seq s (EthTx a n g p v :: r) s'.
 
 (** the messages of a tx, when they are all direct MsgEthereumTx *)
@@ -47,9 +47,9 @@ Fixpoint nonces_from (n : nat) (ls : list leaf) : bool :=
   end.
 
 Definition net_cost (l : leaf) : Z :=
-  match l with EthTx _ _ _ p v => GAS_TRANSFER * p + v | _ => 0 end.
+  match l with EthTx _ _ g p v => (g * p) / WEI - refund_of g p + v | _ => 0 end.
 Definition gas_fee (l : leaf) : Z :=
-  match l with EthTx _ _ _ p _ => GAS_TRANSFER * p | _ => 0 end.
+  match l with EthTx _ _ g p _ => (g * p) / WEI - refund_of g p | _ => 0 end.
 
 Definition sumZ (l : list Z) : Z := fold_right Z.add 0 l.
 
